@@ -36,7 +36,7 @@ Front(q) == SubSeq(q, 1, Len(q) - 1)
 Last(q) == q[Len(q)]
 
 NewObj(key, spell) == [key |-> key, spell |-> spell, plbl |-> None, flbl |-> None, lblLast |-> "n",
-                       shape |-> None, attrs |-> [a \in StyleAttrs |-> None]]
+                       shape |-> None, attrs |-> [a \in StyleAttrs |-> None], cp |-> None, ca |-> <<>>, clsLast |-> <<>>]
 Has(objs, key) == \E i \in 1..Len(objs) : objs[i].key = key
 IdxOf(objs, key) == CHOOSE i \in 1..Len(objs) : objs[i].key = key
 
@@ -76,7 +76,7 @@ SetObj(objs, key, f(_)) == [objs EXCEPT ![IdxOf(objs, key)] = f(@)]
 RemoveIdx(q, S) == LET keep == {j \in 1..Len(q) : j \notin S}
                    IN [n \in 1..Cardinality(keep) |-> q[CHOOSE j \in keep : Cardinality({k \in keep : k < j}) = n - 1]]
 
-Empty == [objs |-> <<>>, edges |-> <<>>, err |-> FALSE, dirty |-> {}, rules |-> <<>>]
+Empty == [objs |-> <<>>, edges |-> <<>>, err |-> FALSE, dirty |-> {}, rules |-> <<>>, cdefs |-> <<>>]
 
 Matches(edges, b, i) == MatchesR(edges, b, i, IndexRule)
 
@@ -121,6 +121,18 @@ ApplyR(s, d, irule) ==
          LET b == <<FoldPath(d.s), FoldPath(d.d), d.sa, d.da>> m == MatchesR(s.edges, b, d.i, irule) IN
          IF m = {} THEN s
          ELSE [s EXCEPT !.edges = RemoveIdx(s.edges, m), !.dirty = @ \cup {b}]
+    \* ---- classes: a class is a named bundle of attribute values, defined anywhere on the board (the order of
+    \* definition and use does not matter); an object names the classes it takes, the last assignment counts
+    [] d.k = "cdef" -> [s EXCEPT !.cdefs = Append(@, <<Fold(d.c), d.a, d.v>>)]
+    [] d.k = "class" ->
+         LET o1 == EnsureR(s.objs, d.p, s.rules) key == FoldPath(d.p)
+         \* DEVIATION-4 (the code's rule): a class written as a scalar and a class list are kept apart and the scalar
+         \* wins while it is there, whichever was written last; clsLast is what the property's last-assignment rule asks for
+         IN [s EXCEPT !.objs = SetObj(o1, key, LAMBDA o : IF Len(d.cs) = 1 THEN [o EXCEPT !.cp = Fold(d.cs[1]), !.clsLast = FoldPath(d.cs)]
+                                                                          ELSE [o EXCEPT !.ca = FoldPath(d.cs), !.clsLast = FoldPath(d.cs)])]
+    [] d.k = "classnull" ->
+         LET o1 == EnsureR(s.objs, d.p, s.rules) key == FoldPath(d.p)
+         IN [s EXCEPT !.objs = SetObj(o1, key, LAMBDA o : [o EXCEPT !.cp = None, !.ca = <<>>, !.clsLast = <<>>])]
     [] d.k = "glob" ->
          LET r == [scope |-> FoldPath(d.p), pat |-> d.pat, a |-> d.a, v |-> d.v]
              o1 == EnsureR(s.objs, d.p, s.rules)                       \* the scope's containers are created like any key
@@ -131,6 +143,18 @@ ApplyR(s, d, irule) ==
 Apply(s, d) == ApplyR(s, d, IndexRule)
 
 \* ------------------------------------------------------------------ projection to a compiled board
+\* the value a class list gives an attribute: the last class of the list that defines it, its last definition
+ClassVal(cdefs, cls, a) ==
+  LET hits == {<<i, j>> \in (1..Len(cls)) \X (1..Len(cdefs)) : cdefs[j][1] = cls[i] /\ cdefs[j][2] = a}
+  IN IF hits = {} THEN None
+     ELSE cdefs[(CHOOSE h \in hits : \A g \in hits : g[1] < h[1] \/ (g[1] = h[1] /\ g[2] <= h[2]))[2]][3]
+\* class values are defaults: an object's own value wins wherever it is written; a class label counts as a label field
+ClsOf(o) == IF o.cp # None THEN <<o.cp>> ELSE o.ca
+WithClasses(cdefs, o) ==
+  IF ClsOf(o) = <<>> THEN o
+  ELSE [o EXCEPT !.shape = IF @ # None THEN @ ELSE ClassVal(cdefs, ClsOf(o), "shape"),
+                 !.attrs = [a \in StyleAttrs |-> IF o.attrs[a] # None THEN o.attrs[a] ELSE ClassVal(cdefs, ClsOf(o), a)],
+                 !.flbl = IF @ # None THEN @ ELSE ClassVal(cdefs, ClsOf(o), "label")]
 LabelOfR(o, lrule) == IF lrule = "code"
               THEN (IF o.flbl # None THEN o.flbl ELSE IF o.plbl # None THEN o.plbl ELSE Last(o.spell))
               ELSE (IF o.lblLast = "f" THEN o.flbl ELSE IF o.lblLast = "p" THEN o.plbl ELSE Last(o.spell))
@@ -143,7 +167,7 @@ ProjEdge(edges, j) == LET e == edges[j] IN
    idx |-> Cardinality({k \in InBundle(edges, Bundle(e)) : k < j}),       \* initIndex: survivors renumbered 0..n-1
    label |-> IF e.label = None THEN "" ELSE e.label,
    attrs |-> {<<a, e.attrs[a]>> : a \in {x \in StyleAttrs : e.attrs[x] # None}}]
-Proj(s) == [objs |-> [i \in 1..Len(s.objs) |-> ProjObj(s.objs[i])], edges |-> [j \in 1..Len(s.edges) |-> ProjEdge(s.edges, j)]]
+Proj(s) == [objs |-> [i \in 1..Len(s.objs) |-> ProjObj(WithClasses(s.cdefs, s.objs[i]))], edges |-> [j \in 1..Len(s.edges) |-> ProjEdge(s.edges, j)]]
 
 \* ------------------------------------------------------------------ the state machine: all programs up to MaxLen
 Init == st = Empty /\ prog = <<>>
